@@ -1,6 +1,7 @@
 import ClusterVerif.Model.C14Snaps
 import ClusterVerif.Spec.C14Snaps
 import Driver.Parse
+import Driver.C14Damage
 namespace CV.C14
 open CV.Parse CV.C14.Snaps
 
@@ -38,6 +39,9 @@ def failedNamesN (cs : List (String × Bool)) : String :=
   ",".intercalate (dedupStrN ((cs.filter (fun c => !c.2)).map (·.1)))
 
 def answerSnaps (ws : List String) : String :=
+  match answerDamage ws with
+  | some r => r
+  | none =>
   match splitArrow ws with
   | some ([itS, opS], post) =>
     let parsed := do
